@@ -12,6 +12,7 @@
 #![allow(dead_code, unused_imports, unused_variables, unused_macros, unused_mut, static_mut_refs)]
 
 pub mod shim {
+    pub const MAP_CAP: usize = 4;
     include!("/verif/models/shim/btreemap.rs");
     include!("/verif/models/shim/btreeset.rs");
 }
